@@ -181,7 +181,7 @@ func (e *Engine) checkInverted(
 	}
 
 	return func(ctx context.Context, resultCh chan<- checkgroup.Result) {
-		innerCh := make(chan checkgroup.Result)
+		innerCh := make(chan checkgroup.Result, 1)
 		go check(ctx, innerCh)
 		select {
 		case result := <-innerCh:
